@@ -8,11 +8,11 @@ import (
 	"nhooyr.io/websocket"
 
 	"verif/engine/explore"
-	"verif/fw"
 	"verif/engine/vctx"
 	"verif/engine/vpipe"
 	"verif/engine/vs"
 	"verif/engine/vtime"
+	"verif/fw"
 	"verif/refws/deflate"
 	"verif/refws/frame"
 )
